@@ -26,7 +26,7 @@ from .. import plugin_util as pu
 from .. import c03_protogen as G
 from ..lib import cz, cb, cl, ce, coq_bytes, coq_z, CN, cbool
 
-IMPORTS = "Spec.Descriptor gen.C03Tables Model.Plugin Proofs.PluginP"
+IMPORTS = "Spec.Descriptor gen.C03Tables Model.Plugin Proofs.PluginP Proofs.PluginWitP"
 LEVEL = "translation_validation"
 
 TRUSTED = [
@@ -836,6 +836,26 @@ def stage_functions(ctx):
             e2 = ce("EOther")
         add(f"cbool (is_oneof {gf})", e2, ("is_oneof", has_oi, oi, p3))
         ctx.seen_nontrivial(("is_map", fn, tn, typ, tuple(nested), has_oi, p3))
+    # ---- the descriptors written out in Proofs/PluginWitP.v: the stand-in naming functions used there agree with
+    #      the real ones on every name, and the Gallina literal is what protoc emits for the quoted source today
+    for nm, text in G.COQ_WITNESS_SOURCES.items():
+        try:
+            fds = pu.descriptor_set(ctx.work, {nm + ".proto": text}, name="coqwit_" + nm)
+        except Exception as e:  # noqa
+            ctx.fail("corr", f"protoc rejects the source of Coq witness {nm}: {e!r}", no_input=True,
+                     theorem_or_correspondence="witness descriptors of Proofs/PluginWitP.v")
+            continue
+        fields, classes, members = name_tables(fds)
+        for k, v in sorted(fields.items()):
+            add(f"CB (w_field_name {s(k)})", cb(v.encode()), ("witness naming: field", nm, k))
+        for k, v in sorted(classes.items()):
+            add(f"CB (w_class_name {s(k)})", cb(v.encode()), ("witness naming: class", nm, k))
+        for k, v in sorted(members.items()):
+            a, b_ = k.split("\x00")
+            add(f"CB (w_member_name {s(a)} {s(b_)})", cb(v.encode()), ("witness naming: member", nm, k))
+        add(f"cv_opt_table (class_table_of w_field_name w_class_name w_member_name {nm})",
+            f"cv_opt_table (class_table_of w_field_name w_class_name w_member_name {g_descriptor(fds)})",
+            ("witness descriptor literal = protoc's output", nm))
     ctx.count("function_level_cases", len(pairs))
     ctx.cov["evaluations"] += len(pairs)
     bad = lib.coq_compare(ctx, "c03fn", IMPORTS, pairs)
@@ -1038,7 +1058,7 @@ def run(ctx):
     # ---------------------------------------------------------------- B: generated schemas, batched
     gen = G.Gen(rng, api_names(), depth=3 if not ctx.thorough else 5)
     schemas = G.systematic(0)
-    nrandom = 45 if not ctx.thorough else 600
+    nrandom = 32 if not ctx.thorough else 600
     for i in range(nrandom):
         schemas.append(gen.schema(len(schemas)))
     batch_size = 8 if not ctx.thorough else 12
